@@ -310,28 +310,28 @@ class FormData:
                     for _, integral_type in itg_data.domain_integral_type_map.items()
                 ):
                     continue
-                default_restrictions: dict[AbstractDomain, str | None] | None
-                if do_apply_default_restrictions:
-                    default_restrictions = {
-                        domain: default_restriction_map[integral_type]
-                        for domain, integral_type in itg_data.domain_integral_type_map.items()
-                    }
-                    # Need the following dict update in case not all participating domains
-                    # have been included in the Measure (backwards compat).
-                    extra = {
-                        domain: default_restriction_map[itg_data.integral_type]
-                        for integral in itg_data.integrals
-                        for domain in extract_domains(integral)
-                        if domain not in default_restrictions
-                    }
-                    default_restrictions.update(extra)
-                else:
-                    default_restrictions = None
+                # The map is always needed to check that discontinuous quantities
+                # are restricted; do_apply_default_restrictions only decides whether
+                # continuous quantities get the default side.
+                default_restrictions: dict[AbstractDomain, str | None] = {
+                    domain: default_restriction_map[integral_type]
+                    for domain, integral_type in itg_data.domain_integral_type_map.items()
+                }
+                # Need the following dict update in case not all participating domains
+                # have been included in the Measure (backwards compat).
+                extra = {
+                    domain: default_restriction_map[itg_data.integral_type]
+                    for integral in itg_data.integrals
+                    for domain in extract_domains(integral)
+                    if domain not in default_restrictions
+                }
+                default_restrictions.update(extra)
                 new_integrals = []
                 for integral in itg_data.integrals:
                     new_integral = apply_restrictions(
                         integral,
                         default_restrictions=default_restrictions,
+                        apply_default=do_apply_default_restrictions,
                     )
                     new_integrals.append(new_integral)
                 itg_data.integrals = new_integrals
